@@ -11,12 +11,12 @@ worker() {
   local k=$1 d=$root/$1
   mkdir -p $d
   rsync -a --exclude .git --exclude .build --exclude work --exclude replays --exclude seeded --exclude mutants /verif/ $d/verif/
-  git -C /repo worktree add -q --detach $d/repo HEAD || return
+  git -C /repo worktree add -q --detach $d/repo ${PAR_BASE:-HEAD} || return
   local i=0
   while read -r label patch checks; do
     i=$((i+1)); [ $(( (i-1) % n )) -eq $k ] || continue
     [ "$checks" = ALL ] && checks="C01 C02 C03 C04 C05 C06 C07 C08 C09 C10 C11 C12 C13 C14 C15 C16 C17 C18 C19 C20"
-    git -C $d/repo reset -q --hard HEAD ; git -C $d/repo clean -fdq
+    git -C $d/repo reset -q --hard ${PAR_BASE:-HEAD} ; git -C $d/repo clean -fdq
     if ! git -C $d/repo apply "$patch" 2>/dev/null && ! git -C $d/repo apply -3 "$patch" 2>/dev/null; then echo "$label - PATCH-DOES-NOT-APPLY" >> "$out"; continue; fi
     if ! ( cd $d/repo && go build ./... ) 2>/dev/null; then echo "$label - BUILD-FAIL" >> "$out"; continue; fi
     for p in $checks; do
